@@ -47,6 +47,7 @@ package types
 //@   ensures result == dec(h.RevisionNumber) + "-" + dec(h.RevisionHeight)
 
 //@ contract ParseHeight
+//@   inline
 //@   ensures err == nil ==> contains(heightStr, "-")
 //@   ensures err != nil ==> result.RevisionNumber == 0 && result.RevisionHeight == 0
 
